@@ -24,6 +24,14 @@ HEAVY = {"textDocument/references", "textDocument/documentHighlight", "textDocum
 
 HOSTILE = [
     "",
+    "module m1\ncontains\nsubroutine sub()\nend subroutine sub\nsubroutine s2()\nassociate (a => sub)\nprint *, a\nend associate\nend subroutine s2\nend module m1\n",
+    "module m1t\ntype tt\nend type\ncontains\nsubroutine s2()\nassociate (a => tt)\nprint *, a\nend associate\nend subroutine s2\nend module m1t\n",
+    "module m2\ninterface gen\nmodule procedure sa\nend interface gen\nprocedure(gen), pointer :: p\ntype t\ncontains\nprocedure, nopass :: bound => gen\nend type\ncontains\n"
+    "subroutine sa()\nend subroutine sa\nsubroutine u()\ntype(t) :: o\ncall o%bound()\ncall p()\nend subroutine u\nend module m2\n",
+    "module m4\ntype, abstract :: base\ncontains\nprocedure(iface), deferred :: run\nend type\nabstract interface\nsubroutine iface(self, n)\nimport base\n"
+    "class(base), intent(inout) :: self\nend subroutine\nend interface\ntype, extends(base) :: child\ninteger :: k\nend type child\nend module m4\n",
+    "module m6\ncontains\nfunction ff(a) result(res)\ninteger :: a\ninterface res\nend interface res\nend function ff\nend module m6\n",
+    "program pi\nuse iso_fortran_env, only: int32, real64\nuse iso_c_binding\ninteger(int32) :: i\nreal(real64) :: r\ntype(c_ptr) :: cp\ninteger(c_int) :: ci\ni = int32\nend program pi\n",
     "\n",
     "! only a comment",
     "program p\n  x = 'unterminated\n  call foo(\nend program p",
@@ -210,7 +218,10 @@ class Sweep:
                     continue
                 p = impl.pos_params(path, li, ch)
                 if method.endswith("references"):
-                    p["context"] = {"includeDeclaration": True}
+                    # the three forms a client may send: with the declaration, without it, no context at all
+                    k = (idx + li) % 3
+                    if k < 2:
+                        p["context"] = {"includeDeclaration": k == 0}
                 if method.endswith("rename"):
                     p["newName"] = "zz_new"
                 if method.endswith("codeAction"):
@@ -306,7 +317,8 @@ def history_phase(ctx, sw, src):
     sw.open(a, "module hist_consts\n  implicit none\n  real :: hist_tol = 1.0\n  type :: hist_t\n    integer :: k\n  end type\ncontains\n  subroutine hist_init(x)\n    real :: x\n"
                "  end subroutine\nend module hist_consts\n")
     sw.open(b, "module hist_user\n  use hist_consts\n  implicit none\n  type(hist_t) :: obj\ncontains\n  subroutine run(y)\n    real :: y\n    y = hist_tol\n    call hist_init(y)\n"
-               "    obj%k = 1\n  end subroutine run\nend module hist_user\n")
+               "    obj%k = 1\n  end subroutine run\n  subroutine hist_long(hist_value_in)\n    real :: hist_value_in\n    hist_value_in = 1.0 + hist_value_in\n"
+               "  end subroutine hist_long\nend module hist_user\n")
     total = sw.sweep_doc(b, 3, 2)
     # unsaved edit of the used module: renamed, then emptied, then syntactically broken
     sw.unsaved_other = "hist_consts.f90"
@@ -323,6 +335,15 @@ def history_phase(ctx, sw, src):
     sw.unsaved_other = None
     total += sw.sweep_doc(b, 3, 2)
     ctx.count(("history", "unsaved-rename/empty/broken, delete+close"), True)
+    # single-line edits of the swept document itself (no line break: the in-place path of apply_change) between full sweeps:
+    # `    hist_value_in = 1.0 + hist_value_in` loses `1.0 + `: the second occurrence moves left by less than its length, so the
+    # old columns still point into the name but end beyond the new end of the line; then it moves back.
+    # Whatever a handler remembered of the old line must not leak into an answer
+    total += sw.sweep_doc(b, 1, 1)
+    for (c0, c1, txt) in ((20, 26, ""), (20, 20, "1.0 +    ")):
+        impl.did_change(sw.srv, b, [{"range": {"start": {"line": 13, "character": c0}, "end": {"line": 13, "character": c1}}, "text": txt}])
+        total += sw.sweep_doc(b, 1, 1)
+    ctx.count(("history", "single-line edits between sweeps"), True)
     # known finding: go-to-definition on an INCLUDE statement reports the line of the statement as a line of the included file
     with open(inc, "w") as f:
         f.write("integer :: hist_z\n")
